@@ -45,7 +45,7 @@ ALPHA = [b"a", b"b", b"/", b".", b"-", b"0", b" ", b"\n", b":", b"\x80", b"\xff"
 
 def gen_names(rng, n, nul):
     names = set()
-    base = [b"HEAD", b"refs/heads/master", b"refs/heads/master/x", b"refs/tags/v1", b"a", b"ab", b"a/", b"", b"\xff"]
+    base = [b"HEAD", b"refs/heads/master", b"refs/heads/master/x", b"refs/tags/v1", b"a", b"ab", b"a/", b"", b"\xff", "e\u0301".encode(), "\u212b".encode(), "\uf900".encode(), "cafe\u0301".encode()]
     while len(names) < n:
         r = rng.random()
         if r < 0.35 and names:
